@@ -543,21 +543,65 @@ fn gen_value(rng: &mut Rng, depth: u32) -> Value {
     Value::Record(attrs, items)
 }
 
-/// A near miss of `v`: one small change somewhere (possibly none that changes the value's identity).
+/// 1..3 small changes (two structural moves can cancel in the comparator's size bookkeeping where one cannot).
 fn mutate_value(rng: &mut Rng, v: &Value) -> Value {
+    let n = *rng.pick(&[1u32, 1, 1, 2, 2, 3]);
+    let mut w = mutate_once(rng, v);
+    for _ in 1..n {
+        w = mutate_once(rng, &w);
+    }
+    w
+}
+
+/// A near miss of `v`: one small change somewhere (possibly none that changes the value's identity).
+fn mutate_once(rng: &mut Rng, v: &Value) -> Value {
     match v {
         Value::Record(attrs, items) if rng.chance(4, 5) => {
             let mut attrs = attrs.clone();
             let mut items = items.clone();
             let total = attrs.len() + items.len();
-            match rng.below(12) {
+            match rng.below(15) {
+                // shift a brace: [.., {a, b..}, ..] -> [.., a, {b..}, ..]  /  [.., a, {b..}, ..] -> [.., {a, b..}, ..]
+                // (the number of leaves and of braces stays the same: what additive sizes cannot see)
+                12 | 13 | 14 if !items.is_empty() => {
+                    let i = rng.below(items.len() as u64) as usize;
+                    match items[i].clone() {
+                        Item::ValueItem(Value::Record(a, mut inner)) if a.is_empty() && !inner.is_empty() => {
+                            if rng.chance(1, 2) {
+                                let first = inner.remove(0);
+                                items[i] = Item::ValueItem(Value::Record(vec![], inner));
+                                items.insert(i, first);
+                            } else {
+                                let last = inner.pop().unwrap();
+                                items[i] = Item::ValueItem(Value::Record(vec![], inner));
+                                items.insert(i + 1, last);
+                            }
+                        }
+                        x if i + 1 < items.len() => {
+                            if let Item::ValueItem(Value::Record(a, inner)) = items[i + 1].clone() {
+                                if a.is_empty() {
+                                    let mut inner2 = vec![x];
+                                    inner2.extend(inner);
+                                    items[i + 1] = Item::ValueItem(Value::Record(vec![], inner2));
+                                    items.remove(i);
+                                }
+                            }
+                        }
+                        _ => {}
+                    }
+                }
                 0 if !items.is_empty() => {
                     let i = rng.below(items.len() as u64) as usize;
                     items.remove(i);
                 }
                 1 => {
                     let i = rng.below(items.len() as u64 + 1) as usize;
-                    items.insert(i, Item::ValueItem(gen_prim(rng)));
+                    let x = match rng.below(4) {
+                        0 => Value::Record(vec![], vec![]),
+                        1 => Value::Extant,
+                        _ => gen_prim(rng),
+                    };
+                    items.insert(i, Item::ValueItem(x));
                 }
                 2 if !attrs.is_empty() => {
                     let i = rng.below(attrs.len() as u64) as usize;
@@ -636,17 +680,17 @@ fn mutate_value(rng: &mut Rng, v: &Value) -> Value {
                         if rng.chance(1, 3) {
                             attrs[i].name = Text::from(gen_ident(rng));
                         } else {
-                            attrs[i].value = mutate_value(rng, &attrs[i].value.clone());
+                            attrs[i].value = mutate_once(rng, &attrs[i].value.clone());
                         }
                     } else {
                         let j = i - attrs.len();
                         items[j] = match items[j].clone() {
-                            Item::ValueItem(x) => Item::ValueItem(mutate_value(rng, &x)),
+                            Item::ValueItem(x) => Item::ValueItem(mutate_once(rng, &x)),
                             Item::Slot(k, x) => {
                                 if rng.chance(1, 2) {
-                                    Item::Slot(mutate_value(rng, &k), x)
+                                    Item::Slot(mutate_once(rng, &k), x)
                                 } else {
-                                    Item::Slot(k, mutate_value(rng, &x))
+                                    Item::Slot(k, mutate_once(rng, &x))
                                 }
                             }
                         };
@@ -708,6 +752,25 @@ fn mutate_value(rng: &mut Rng, v: &Value) -> Value {
                 _ => Value::BigInt(n),
             }
         }
+    }
+}
+
+/// The same structure with every primitive leaf replaced by `1` (texts that are slot keys keep a one-letter name):
+/// the comparator's size bookkeeping only sees structure, equal leaves are what lets it be fooled.
+fn uniform_leaves(v: &Value) -> Value {
+    match v {
+        Value::Record(attrs, items) => Value::Record(
+            attrs.iter().map(|a| Attr { name: Text::from("a"), value: uniform_leaves(&a.value) }).collect(),
+            items
+                .iter()
+                .map(|i| match i {
+                    Item::ValueItem(x) => Item::ValueItem(uniform_leaves(x)),
+                    Item::Slot(k, x) => Item::Slot(uniform_leaves(k), uniform_leaves(x)),
+                })
+                .collect(),
+        ),
+        Value::Extant => Value::Extant,
+        _ => Value::Int32Value(1),
     }
 }
 
@@ -1186,6 +1249,142 @@ fn mutate_text(rng: &mut Rng, base: &str) -> String {
     b.into_iter().collect()
 }
 
+
+// ------------------------------------------------------------------------------------------- exhaustive small scope
+
+/// All values with at most `budget` nodes over a tiny alphabet (one primitive `1`, `Extant`, attribute names `a`/`b`,
+/// slot keys that are primitives or records): the comparator's size bookkeeping only sees structure.
+fn enum_values(budget: usize, memo: &mut Vec<Option<Vec<Value>>>) -> Vec<Value> {
+    if let Some(Some(v)) = memo.get(budget) {
+        return v.clone();
+    }
+    let mut out: Vec<Value> = vec![];
+    if budget >= 1 {
+        out.push(Value::Int32Value(1));
+        out.push(Value::Extant);
+        // records: 1 node for the record itself + attrs + items
+        for total in 0..budget {
+            // split `total` nodes among attrs (each: 1 + value nodes, or 1 for a bare attr) and items
+            for na in 0..=2usize.min(total) {
+                for ni in 0..=3usize.min(total) {
+                    if na + ni > total {
+                        continue;
+                    }
+                    // distribute the remaining nodes: generate compositions lazily by recursion
+                    let mut partial: Vec<(Vec<Attr>, Vec<Item>, usize)> = vec![(vec![], vec![], total)];
+                    for ai in 0..na {
+                        let mut next = vec![];
+                        for (attrs, items, left) in &partial {
+                            // reserve one node for each later attr/item
+                            let later = (na - ai - 1) + ni;
+                            for use_ in 1..=left.saturating_sub(later) {
+                                let name = if ai == 0 { "a" } else { "b" };
+                                if use_ == 1 {
+                                    let mut a2 = attrs.clone();
+                                    a2.push(Attr { name: Text::from(name), value: Value::Extant });
+                                    next.push((a2, items.clone(), left - 1));
+                                } else {
+                                    for v in enum_values(use_ - 1, memo) {
+                                        if v == Value::Extant {
+                                            continue;
+                                        }
+                                        let mut a2 = attrs.clone();
+                                        a2.push(Attr { name: Text::from(name), value: v });
+                                        next.push((a2, items.clone(), left - use_));
+                                    }
+                                }
+                            }
+                        }
+                        partial = next;
+                    }
+                    for ii in 0..ni {
+                        let mut next = vec![];
+                        for (attrs, items, left) in &partial {
+                            let later = ni - ii - 1;
+                            for use_ in 1..=left.saturating_sub(later) {
+                                for v in enum_values(use_, memo) {
+                                    let mut i2 = items.clone();
+                                    i2.push(Item::ValueItem(v));
+                                    next.push((attrs.clone(), i2, left - use_));
+                                }
+                                // slot: key + value share `use_` nodes (>= 2)
+                                for ku in 1..use_ {
+                                    for k in enum_values(ku, memo) {
+                                        for v in enum_values(use_ - ku, memo) {
+                                            let mut i2 = items.clone();
+                                            i2.push(Item::Slot(k.clone(), v));
+                                            next.push((attrs.clone(), i2, left - use_));
+                                        }
+                                    }
+                                }
+                            }
+                        }
+                        partial = next;
+                    }
+                    for (attrs, items, left) in partial {
+                        if left == 0 {
+                            out.push(Value::Record(attrs, items));
+                        }
+                    }
+                }
+            }
+        }
+    }
+    out.sort_by(|a, b| venc(a).cmp(&venc(b)));
+    out.dedup_by(|a, b| venc(a) == venc(b));
+    while memo.len() <= budget {
+        memo.push(None);
+    }
+    memo[budget] = Some(out.clone());
+    out
+}
+
+/// Every value of the small scope that the parser can produce, in its compact print and (for records with an
+/// attribute body that may be written either way) with explicit braces; every pair of texts is compared.
+fn exhaustive(t: &mut Trace, budget: usize, shard: u64, shards: u64) {
+    let mut memo = vec![];
+    let mut values: Vec<Value> = vec![];
+    for b in 1..=budget {
+        values.extend(enum_values(b, &mut memo));
+    }
+    // keep what survives a print/parse cycle (the printer has known defects on some shapes; they are C09's)
+    let mut texts: Vec<(String, Value)> = vec![];
+    for v in &values {
+        for style in 0..2u64 {
+            let s = print_style(style, v);
+            if let Ok(Ok(p)) = parse_one(&s) {
+                if !texts.iter().any(|(x, _)| *x == s) {
+                    texts.push((s, p));
+                }
+            }
+        }
+    }
+    let n = texts.len();
+    let mut mism = 0u64;
+    let mut pairs = 0u64;
+    for i in 0..n {
+        if (i as u64) % shards != shard {
+            continue;
+        }
+        for j in 0..n {
+            pairs += 1;
+            let (a, va) = &texts[i];
+            let (b, vb) = &texts[j];
+            let c = compare_recon_values(a, b);
+            let e = va == vb;
+            let h = !c || hash_calls(a) == hash_calls(b);
+            if c != e || !h {
+                mism += 1;
+                if mism <= 5000 {
+                    t.case(format!("exh {} {}", i, j));
+                    exec(t, &format!("pair {} {}", hex(a.as_bytes()), hex(b.as_bytes())));
+                }
+            }
+        }
+    }
+    t.case(format!("exh-summary budget={} shard={}/{} texts={} pairs={} mismatches={}", budget, shard, shards, n, pairs, mism));
+}
+
 // ------------------------------------------------------------------------------------------- cases
 
 fn emit_pair(t: &mut Trace, a: &str, b: &str, units: bool) {
@@ -1205,19 +1404,33 @@ fn pair_texts(rng: &mut Rng, engine: &str) -> (String, String) {
     match engine {
         // printer output only (what the backpressure layer sees): same value, two printers; or a near miss
         "printed" => {
-            let v = gen_value(rng, 4);
+            let mut v = gen_value(rng, 4);
+            let uni = rng.chance(1, 4);
+            if uni {
+                v = uniform_leaves(&v);
+            }
             let (s1, s2) = (rng.below(3), rng.below(3));
             if rng.chance(1, 2) {
                 (print_style(s1, &v), print_style(s2, &v))
             } else {
-                let w = mutate_value(rng, &v);
+                let mut w = mutate_value(rng, &v);
+                if uni {
+                    w = uniform_leaves(&w);
+                }
                 (print_style(s1, &v), print_style(s2, &w))
             }
         }
         // same value / near miss, free layouts and spellings
         "layouts" => {
-            let v = gen_value(rng, 4);
-            let w = if rng.chance(3, 5) { v.clone() } else { mutate_value(rng, &v) };
+            let mut v = gen_value(rng, 4);
+            let uni = rng.chance(1, 4);
+            if uni {
+                v = uniform_leaves(&v);
+            }
+            let mut w = if rng.chance(3, 5) { v.clone() } else { mutate_value(rng, &v) };
+            if uni {
+                w = uniform_leaves(&w);
+            }
             let a = match rng.below(4) {
                 0 => print_style(rng.below(3), &v),
                 k => wprint(rng, k.min(2), &v),
@@ -1338,6 +1551,14 @@ fn main() {
                 _ => 0x15_0500,
             });
             let mut t = Trace::create(&out);
+            if engine == "exhaustive" {
+                // `gen <seed> <cases> <out> exhaustive <budget> <shards>`: shard = seed % shards
+                let budget: usize = std::env::args().nth(6).and_then(|x| x.parse().ok()).unwrap_or(5);
+                let shards: u64 = std::env::args().nth(7).and_then(|x| x.parse().ok()).unwrap_or(1);
+                exhaustive(&mut t, budget, seed % shards, shards);
+                t.finish();
+                return;
+            }
             for c in 0..cases {
                 let mut case_rng = rng.fork();
                 t.case(format!("{} seed={} {}", c, seed, engine));
